@@ -269,6 +269,21 @@ def _hist_shape(case):
                                 for f, r in s["req"].items())] for s in case["history"]]
 
 
+def _killed_edit(mpath):
+    """Grandchild: an edit that makes the metafile much longer and dies right before the new file would be moved
+    into place (or, for an implementation that writes in place, before its first write)."""
+    from ..monitors import faults
+    ff = faults.FsFaults()
+    ff.install()
+    ff.fault = ("match", "os.replace|os.rename", 0, ("crash-before",))
+    ff.active = True
+    edit = drive.mod("edit")
+    edit.edit_torrent(mpath, {"announce": [f"http://tracker-{k}.example/announce/with/a/long/path" for k in range(40)],
+                              "comment": "x" * 3000, "url-list": None, "httpseeds": None, "source": None, "private": None})
+    ff.active = False
+    return "edit completed without renaming anything"
+
+
 # ---------------------------------------------------------------------- C06
 class C06:
     id = "C06"
@@ -286,7 +301,15 @@ class C06:
 
     @staticmethod
     def gen(rng, tier, i):
-        return _gen_case(rng, tier, ["tool"])
+        case = _gen_case(rng, tier, ["tool"])
+        if rng.random() < 0.12:
+            # one edit attempt of the history is KILLED (process dies between writing and installing the new file);
+            # the edits after it include one that makes the file shorter
+            case["killed_edit_before"] = rng.randint(0, len(case["history"]))
+            case["history"] = case["history"] + [{"route": rng.choice(["lib", "cli"]), "omit_unnamed": False, "flags_first": False,
+                                                  "req": {"comment": ["clear"], "announce": ["set", "http://t/a"],
+                                                          "url-list": ["clear"]}}]
+        return case
 
     @staticmethod
     def run(case, scratch):
@@ -301,6 +324,12 @@ class C06:
                 v["detail"]["after"] = "create"
                 viol.append(v)
             for n, step in enumerate(case["history"]):
+                if case.get("killed_edit_before") == n:
+                    from ..harness import fork_call
+                    st, _ = fork_call(_killed_edit, mpath, timeout=60)
+                    counters["killed_edit_attempts"] = 1
+                    if st == "died":
+                        counters["killed_edit_died_at_the_swap"] = 1
                 eo = apply_edit(mpath, step)
                 counters["edits_" + step["route"]] = counters.get("edits_" + step["route"], 0) + 1
                 if not eo.ok:
